@@ -104,7 +104,7 @@ static void fuzzy_scenario(int oi, int mode, int const *sets, int const *fdbs, i
     a_pid_fuzzy_set_bfuzz(&ctx, raw + 64, 2);
     a_pid_fuzzy_zero(&ctx);
     FILE *f = out();
-    fprintf(f, "{\"f\":\"fpid\",\"opr\":%d,\"mode\":%d,\"base\":[2,1,1],\"lim\":[-6,6,-10,10],\"steps\":[", oi, mode);
+    fprintf(f, "{\"f\":\"fpid\",\"width\":%d,\"opr\":%d,\"mode\":%d,\"base\":[2,1,1],\"lim\":[-6,6,-10,10],\"steps\":[", (int)sizeof(a_real), oi, mode);
     double outs[16], outs2[16];
     for (int pass = 0; pass < 2; ++pass)
     {
@@ -197,7 +197,7 @@ static void table_scenario(int oi, int mode, int ke, int kec)
     a_pid_fuzzy_set_bfuzz(&ctx, raw + 64, 3);
     a_pid_fuzzy_zero(&ctx);
     FILE *f = out();
-    fprintf(f, "{\"f\":\"fpidk\",\"opr\":%d,\"mode\":%d,\"ke\":%d,\"kec\":%d,\"base\":[2,1,1],\"steps\":[", oi, mode, kinds[ke].kind, kinds[kec].kind);
+    fprintf(f, "{\"f\":\"fpidk\",\"width\":%d,\"opr\":%d,\"mode\":%d,\"ke\":%d,\"kec\":%d,\"base\":[2,1,1],\"steps\":[", (int)sizeof(a_real), oi, mode, kinds[ke].kind, kinds[kec].kind);
     double prev = 0;
     for (int i = 0; i < n; ++i)
     {
@@ -246,7 +246,7 @@ static void neuro_scenario(int mode, int wset, int const *sets, int const *fdbs,
     }
     a_pid_neuro_zero(&ctx);
     fresh = ctx; /* a freshly initialised controller with the same (learned) weights */
-    memset(&fresh.pid.sum, 0, sizeof(double));
+    fresh.pid.sum = 0;
     fresh.pid.out = fresh.pid.var = fresh.pid.fdb = fresh.pid.err = 0;
     fresh.ec = 0;
     for (int i = 0; i < n; ++i)
@@ -291,6 +291,9 @@ int main(int argc, char **argv)
     }
     static char line[1 << 12];
     long v[64];
+    /* other real widths: controller scenarios only (membership cases and operators are judged with exact expectations
+       in the default width) */
+    if (sizeof(a_real) != sizeof(double)) { goto controllers; }
     while (fgets(line, sizeof(line), fi))
     {
         if (!strstr(line, "4040404")) { continue; }
@@ -362,6 +365,7 @@ int main(int argc, char **argv)
             sweep("psig", A_MF_PSIG, p1, 4, -4000, 4000, 0, 0);
         }
     }
+controllers:;
     /* controller scenarios: short histories in halves, all operators and modes */
     uint64_t s = 0x9E3779B97F4A7C15ull ^ (strtoull(argv[4], 0, 10) * 1000003ull);
     int const mult = argc > 5 ? atoi(argv[5]) : 1; /* number of seeded scenarios per operator / mode */
